@@ -800,7 +800,7 @@ def eval_dyad_remainder(a, b, backend):
                    -7!-5  --> -2
 
     """
-    return backend.np.fmod(a, b)
+    return backend.vec_fn2(a, b, backend.np.fmod)
 
 
 def eval_dyad_reshape(a, b, backend):
